@@ -580,8 +580,11 @@ func (s *Service) delete(ctx context.Context, tx gorp.Tx, keys Keys, allowIntern
 		}
 	}
 	if len(batch.Free) > 0 {
-		err := s.deleteFreeVirtual(ctx, tx, batch.Free)
-		if err != nil {
+		if !s.cfg.HostResolver.HostKey().IsBootstrapper() {
+			if err := s.deleteRemote(ctx, node.KeyBootstrapper, batch.Free); err != nil {
+				return err
+			}
+		} else if err := s.deleteFreeVirtual(ctx, tx, batch.Free); err != nil {
 			return err
 		}
 	}
@@ -681,7 +684,11 @@ func (s *Service) rename(
 	}
 	if len(batch.Free) > 0 {
 		keys, names := unzipRenameBatch(batch.Free)
-		if err := s.renameFreeVirtual(ctx, tx, keys, names, allowInternal); err != nil {
+		if !s.cfg.HostResolver.HostKey().IsBootstrapper() {
+			if err := s.renameRemote(ctx, node.KeyBootstrapper, keys, names); err != nil {
+				return err
+			}
+		} else if err := s.renameFreeVirtual(ctx, tx, keys, names, allowInternal); err != nil {
 			return err
 		}
 	}
